@@ -9,6 +9,7 @@ var NoExpressionsFound = fmt.Errorf("No expressions found")
 type Generator struct {
 	env            *Zlisp
 	funcname       string
+	self           *SexpFunction // the function whose body is being compiled; nil at top level
 	Tail           bool
 	scopes         int
 	instructions   []Instruction
@@ -42,6 +43,7 @@ func NewGenerator(env *Zlisp) *Generator {
 func (gen *Generator) NewSubGenerator() *Generator {
 	subgen := NewGenerator(gen.env)
 	subgen.knownFunctions = gen.knownFunctions
+	subgen.self = gen.self
 	return subgen
 }
 
@@ -129,6 +131,7 @@ func buildSexpFun(
 
 	sfun := gen.env.MakeFunction(gen.funcname, nargs, varargs, nil, orig)
 	sfun.SetFormalSymbols(argsyms)
+	gen.self = sfun
 	if len(name) > 0 {
 		gen.knownFunctions[env.MakeSymbol(name).number] = sfun
 	}
@@ -733,7 +736,14 @@ func (gen *Generator) GenerateCallBySymbol(sym *SexpSymbol, args []Sexp, orig Se
 	oldtail := gen.Tail
 	gen.Tail = false
 	if oldtail && sym.name == gen.funcname {
-		err := gen.GenerateCallArgsForFunction(gen.LookupKnownFunction(sym), args)
+		// the jump re-enters the function being compiled: prepare the
+		// arguments for its parameters, not for whatever else of that
+		// name was compiled last (knownFunctions is keyed by name).
+		callee := gen.self
+		if callee == nil {
+			callee = gen.LookupKnownFunction(sym)
+		}
+		err := gen.GenerateCallArgsForFunction(callee, args)
 		if err != nil {
 			return err
 		}
